@@ -122,6 +122,23 @@ def op_cases(system: str, instance: int = 0) -> list[tuple[str, str]]:
                 out.append((f"curl:{system_tag}:{n}:{s}:{name}", "" if ok else
                     f"curl of {comps} in {system} is {short(c, 160)}, chain rule gives "
                     f"{short([sp.simplify(w) for w in wc], 160)}"))
+    # the same basis element in several slots at once (components that are equal as expressions)
+    for pattern in ((1, 1, 0), (1, 0, 1), (0, 1, 1), (1, 1, 1)):
+        for name, f in B[1:]:
+            comps = [f if on else sp.S.Zero for on in pattern]
+            F = VectorField.from_vector(Vector(comps, cs))
+            d = divergence_operator(F)
+            wd = ref.div(comps)
+            tag = "".join(map(str, pattern))
+            out.append((f"div:{system_tag}:repeated{tag}:{name}", "" if zero_at_points(system, q, d -
+                wd) else f"divergence of {comps} in {system} is {short(d, 160)}, chain rule gives "
+                f"{short(sp.simplify(wd), 160)}"))
+            c = curl_operator(F).apply_to_basis().components
+            wc = ref.curl(comps)
+            ok = all(zero_at_points(system, q, a - b) for a, b in zip(R.pad(c), wc))
+            out.append((f"curl:{system_tag}:repeated{tag}:{name}", "" if ok else
+                f"curl of {comps} in {system} is {short(c, 160)}, chain rule gives "
+                f"{short([sp.simplify(w) for w in wc], 160)}"))
     # all slots generic at once, every component count
     G = [sp.Function(f"F{i}")(*q) for i in range(3)]
     for n in range(0, 4):
